@@ -9,7 +9,7 @@ A String is L('String')[buf] where buf is L('StrBuf') of items:
 import re
 from . import terms as T
 from .terms import Term
-from .mirsym import (L, Ptr, SliceRef, FnRef, Guarded, NumPiece, Float, UNIT, DEAD, Unsupported)
+from .mirsym import (L, Ptr, SliceRef, FnRef, Guarded, NumPiece, Float, UNIT, DEAD, Unsupported, OpaqueSlice)
 
 HEX = '0123456789abcdef'
 
@@ -119,6 +119,8 @@ def register(lib):
 
     @reg(r'^String::len$|^core::str::<impl str>::len$', 'str::len')
     def _s_len(fr, name, args, ops):
+        if type(args[0]) is OpaqueSlice:
+            return args[0].length
         items = str_items(args[0])
         try:
             return utf8_len(items)
@@ -130,6 +132,8 @@ def register(lib):
 
     @reg(r'^String::is_empty$|^core::str::<impl str>::is_empty$', 'str::is_empty')
     def _s_empty(fr, name, args, ops):
+        if type(args[0]) is OpaqueSlice:
+            return T.eq(64, args[0].length, 0)
         items = str_items(args[0])
         if any(type(it) is Guarded for it in items):
             raise Unsupported('is_empty of a string with guarded pieces')
@@ -182,6 +186,8 @@ def register(lib):
     @reg(r'^String::as_bytes$|^core::str::<impl str>::as_bytes$', 'str::as_bytes')
     def _as_bytes(fr, name, args, ops):
         v = args[0]
+        if type(v) is OpaqueSlice:
+            return v
         sl = None
         if type(v) is Ptr:
             s_ = v.c[v.k]
@@ -209,6 +215,61 @@ def register(lib):
         if type(c0) not in (int, Term):
             raise Unsupported('starts_with on a conditional piece')
         return T.eq(32, c0, args[1])
+
+    def plain(items, what):
+        if any(type(x) not in (int, Term) for x in items):
+            raise Unsupported('%s on a string with conditional pieces' % what)
+        return items
+
+    def prefix_cond(items, pat):
+        if len(pat) > len(items):
+            return 0
+        return T.and_many([T.eq(32, a, b) for a, b in zip(items, pat)])
+
+    @reg(r'^core::str::<impl str>::starts_with::<&str>$|^core::str::<impl str>::starts_with::<&String>$', 'str::starts_with(&str)')
+    def _starts_with_str(fr, name, args, ops):
+        return prefix_cond(plain(str_items(args[0]), 'starts_with'), plain(str_items(args[1]), 'starts_with'))
+
+    @reg(r'^core::str::<impl str>::ends_with::<&str>$', 'str::ends_with(&str)')
+    def _ends_with_str(fr, name, args, ops):
+        a, b = plain(str_items(args[0]), 'ends_with'), plain(str_items(args[1]), 'ends_with')
+        return prefix_cond(a[::-1], b[::-1])
+
+    @reg(r'^core::str::<impl str>::ends_with::<char>$', 'str::ends_with(char)')
+    def _ends_with_ch(fr, name, args, ops):
+        a = plain(str_items(args[0]), 'ends_with')
+        return T.eq(32, a[-1], args[1]) if a else 0
+
+    @reg(r'^core::str::<impl str>::strip_prefix::<(char|&str)>$', 'str::strip_prefix')
+    def _strip_prefix(fr, name, args, ops):
+        v = args[0]
+        if type(v) is Ptr:
+            v = v.c[v.k]
+            if type(v) is L and v.tag == 'String':
+                v = SliceRef(v[0], 0, len(v[0]), True)
+        if type(v) is not SliceRef:
+            raise Unsupported('strip_prefix of %r' % (v,))
+        items = plain(v.items(), 'strip_prefix')
+        pat = [args[1]] if name.endswith('<char>') else plain(str_items(args[1]), 'strip_prefix')
+        c = prefix_cond(items, pat)
+        rest = SliceRef(v.c, v.start + len(pat), max(0, v.len - len(pat)), True)
+        if type(c) is int:
+            return lib.some(rest) if c else lib.none()
+        return I.mk([T.zext(1, 64, c), rest], 'enum')
+
+    @reg(r'^core::str::<impl str>::contains::<char>$', 'str::contains(char)')
+    def _contains_ch(fr, name, args, ops):
+        return T.or_many([T.eq(32, x, args[1]) for x in plain(str_items(args[0]), 'contains')] or [0])
+
+    @reg(r"^<(std::borrow::)?Cow<('_, )?str> as Deref>::deref$", 'Cow<str>::deref')
+    def _cow_deref(fr, name, args, ops):
+        v = lib.deref(args[0])
+        if type(v[0]) is not int:
+            raise Unsupported('deref of a Cow with a symbolic discriminant')
+        p = v[1]
+        if type(p) is L and p.tag == 'String':
+            return SliceRef(p[0], 0, len(p[0]), True)
+        return p
 
     @reg(r'^String::remove$', 'String::remove')
     def _remove(fr, name, args, ops):
@@ -327,6 +388,16 @@ def register(lib):
             return [v]
         if ty in ('&str', 'str', 'String', '&String', '&&str'):
             return list(str_items(v))
+        if re.match(r"^&*(std::borrow::)?Cow<('_, )?str>$", ty):
+            d = v[0]
+            if type(d) is int:
+                return list(str_items(v[1]))
+            if v.tag != 'symenum':
+                raise Unsupported('Display of a Cow with symbolic discriminant and shared payload')
+            out = []
+            for dv, f in sorted(v[1].items()):
+                out.append(Guarded(T.eq(64, d, dv), list(str_items(f[0]))))
+            return out
         if ty == 'f64':
             if type(v) is Float and isinstance(v.v, float):
                 return [ord(c) for c in rust_f64_display(v.v, prec)]
